@@ -42,6 +42,7 @@ type Case struct {
 	Gen  *c02gen.Case  `json:"gen,omitempty"`
 	Spec *meshlib.Spec `json:"spec,omitempty"`
 	Ops  []OpCall      `json:"ops,omitempty"`
+	N    int           `json:"n,omitempty"` // "many-materials": number of triangles = number of materials
 }
 
 const (
@@ -314,6 +315,13 @@ func run(c *core.Ctx) {
 		}
 	}
 
+	for i, n := range []int{3, 255, 256, 257, 65535, 65536, 65537} {
+		if c.Mine(i) && !c.Expired() {
+			k.manyMaterials(n)
+		}
+	}
+	c.Bound("many_materials", "SplitOnUniqueMaterials on strips of 3, 255, 256, 257, 65535, 65536, 65537 triangles with a material each")
+
 	// (b) every operation × every variant × S_mesh
 	maxV := 3
 	if th {
@@ -430,6 +438,8 @@ func replay(c *core.Ctx) {
 	k := checker{c: c, replays: true, noted: map[string]bool{}}
 	log.SetOutput(io.Discard)
 	switch cs.Kind {
+	case "many-materials":
+		k.manyMaterials(cs.N)
 	case "gen":
 		k.gen(*cs.Gen)
 	case "ops":
